@@ -372,6 +372,7 @@ func checkC06(w *World, r *Recorder) propInfo {
 	// ---------- A3 ----------
 	c06Loops(w, r, reach, inScope)
 	c06Locks(w, r, reach, inScope)
+	c06ValueSizedWork(w, r, reach, inScope)
 
 	// ---------- A4 ----------
 	ruleOptions(w, r, "C06-A4", "DecOptions")
@@ -1240,5 +1241,58 @@ func c06Locks(w *World, r *Recorder, reach map[*ssa.Function]bool, inScope func(
 	r.Count("lock_sites", n)
 	if n == 0 {
 		r.Prove("C06-A6", "no-locks", "-", "no sync.Mutex / RWMutex is taken in decode-reachable code (nothing to wait for)", false)
+	}
+}
+
+// ---- A7: work sized by a value ----
+
+// c06ValueSizedWork: decode-reachable in-repo code does not hand input-derived
+// values to library routines whose cost is governed by the VALUE of an operand
+// rather than by the length of the input: arbitrary-precision arithmetic
+// (math/big: a 9-byte "1e3000000" expands to megabytes of digits) and
+// Repeat-style builders with a non-constant count. The decoders of this
+// repository need neither.
+func c06ValueSizedWork(w *World, r *Recorder, reach map[*ssa.Function]bool, inScope func(*ssa.Function) bool) {
+	n := 0
+	for _, fn := range sortedFuncs(reach) {
+		if !inScope(fn) {
+			continue
+		}
+		for _, b := range fn.Blocks {
+			for _, in := range b.Instrs {
+				ci, ok := in.(ssa.CallInstruction)
+				if !ok {
+					continue
+				}
+				f := ci.Common().StaticCallee()
+				if f == nil {
+					continue
+				}
+				pkg := ""
+				if p := fnPkg(f); p != nil && p.Pkg != nil {
+					pkg = p.Pkg.Path()
+				} else if f.Object() != nil && f.Object().Pkg() != nil {
+					pkg = f.Object().Pkg().Path()
+				}
+				bad := ""
+				switch {
+				case pkg == "math/big":
+					bad = "arbitrary-precision arithmetic (" + f.String() + "): time and memory follow the magnitude of the number, not the length of the input"
+				case (pkg == "strings" || pkg == "bytes") && f.Name() == "Repeat":
+					if args := ci.Common().Args; len(args) == 2 {
+						if _, isConst := args[1].(*ssa.Const); !isConst {
+							bad = f.String() + " with a count that is not a constant"
+						}
+					}
+				}
+				if bad != "" {
+					n++
+					r.Refute("C06-A7", fmt.Sprintf("%s#%s", fnKey(fn), f.String()), w.InstrPos(in), "decode-reachable code calls a routine whose cost is sized by a value: "+bad)
+				}
+			}
+		}
+	}
+	if n == 0 {
+		r.Prove("C06-A7", "no-value-sized-work", "-", "no math/big call and no Repeat with a computed count in decode-reachable code", false)
 	}
 }
